@@ -161,9 +161,10 @@ PARAM_ATTRS = {'noundef','nonnull','nocapture','readonly','writeonly','readnone'
     'noalias','inreg','nest','immarg','nofree','swiftself','swifterror'}
 
 def skip_attrs(p):
+    seen = set()
     while True:
         k, v = p.peek()
-        if k == 'id' and v in PARAM_ATTRS: p.next()
+        if k == 'id' and v in PARAM_ATTRS: seen.add(v); p.next()
         elif k == 'id' and v in ('align', 'dereferenceable', 'dereferenceable_or_null'):
             p.next()
             if p.accept('('): p.next(); p.expect(')')
@@ -171,6 +172,7 @@ def skip_attrs(p):
         elif k == 'id' and v in ('byval', 'sret', 'byref', 'preallocated', 'inalloca', 'elementtype'):
             p.next(); p.expect('('); p.type(); p.expect(')')
         else: break
+    return seen
 
 # ---------------------------------------------------------------- values
 class V:
@@ -294,23 +296,25 @@ def parse_global(m, l):
 
 def parse_header(p):
     while p.peek()[1] in LINKAGE: p.next()
-    skip_attrs(p)
+    rattrs = skip_attrs(p)
     ret = p.type(); name = p.next()[1]; p.expect('(')
-    args = []; va = False
+    args = []; va = False; sx = set()
     while not p.accept(')'):
         if p.peek()[0] == 'dots': p.next(); va = True
         else:
-            t = p.type(); skip_attrs(p)
+            t = p.type(); at = skip_attrs(p)
             an = None
             if p.peek()[0] == 'loc': an = p.next()[1]
+            if 'signext' in at: sx.add(len(args))
             args.append((t, an))
         p.accept(',')
+    p.last_sx = (sx, 'signext' in rattrs)
     return ret, name, args, va
 
 def parse_decl(m, l):
     p = P(lex(l), m); p.expect('declare')
     ret, name, args, va = parse_header(p)
-    m.decls[name] = dict(ret=ret, args=args, va=va)
+    m.decls[name] = dict(ret=ret, args=args, va=va, sx=p.last_sx)
 
 class Inst:
     def __init__(s, res, op, **kw): s.res, s.op = res, op; s.__dict__.update(kw)
@@ -318,6 +322,7 @@ class Inst:
 def parse_define(m, lines):
     p = P(lex(lines[0]), m); p.expect('define')
     ret, name, args, va = parse_header(p)
+    fsx = p.last_sx
     for i, (t, an) in enumerate(args):
         if an is None: args[i] = (t, '%' + str(i))
     blocks = []; cur = None
@@ -338,7 +343,7 @@ def parse_define(m, lines):
         if cur is None:
             cur = dict(label=first_label, insts=[]); blocks.append(cur)
         cur['insts'].append(parse_inst(P(lex(l), m), l))
-    m.funcs[name] = dict(ret=ret, args=args, va=va, blocks=blocks)
+    m.funcs[name] = dict(ret=ret, args=args, va=va, blocks=blocks, sx=fsx)
     m.order.append(('f', name))
 
 BINOPS = {'add','sub','mul','udiv','sdiv','urem','srem','shl','lshr','ashr','and','or','xor','fadd','fsub','fmul','fdiv','frem'}
